@@ -14,7 +14,7 @@ import (
 
 // Op is one graph mutation of a C19 sequence.
 type Op struct {
-	Kind string // add | defer | remove | clear
+	Kind string // add | defer (deferred add + cycle check) | deferonly (deferred add, check pending) | detect (the cycle check) | remove | clear
 	Self int
 	Deps []int
 }
@@ -25,10 +25,15 @@ func (o Op) String(u []Ident) string {
 		return "Clear"
 	case "remove":
 		return "Remove(" + u[o.Self].Name + ")"
+	case "detect":
+		return "DetectCycles"
 	}
 	k := "Add"
 	if o.Kind == "defer" {
 		k = "AddDeferred+DetectCycles"
+	}
+	if o.Kind == "deferonly" {
+		k = "AddDeferred"
 	}
 	return fmt.Sprintf("%s(%s->[%s])", k, u[o.Self].Name, strings.Join(names(u, o.Deps), ","))
 }
@@ -41,6 +46,10 @@ type seqState struct {
 	tag    int
 	stats  map[string]int64
 	answer string // digest of the last answers, for the non-triviality rule
+	// pending: deferred adds whose completing cycle check has not run yet. Queries are only
+	// specified once the check has run, so nothing is compared while pending; removes and clears
+	// are applied to both sides, immediate adds are skipped.
+	pending bool
 }
 
 func newSeqState(u []Ident) *seqState {
@@ -53,13 +62,38 @@ func (s *seqState) apply(o Op) (clause, msg string) {
 	case "clear":
 		s.g.Clear()
 		s.r.Clear()
+		s.pending = false
 		s.stats["clear"]++
 	case "remove":
 		id := s.u[o.Self]
 		s.g.RemoveProvider(id.Type, id.Key, id.Group)
 		s.r.Remove(o.Self)
 		s.stats["remove"]++
+		if s.pending {
+			s.stats["remove_while_deferred_pending"]++
+		}
+	case "deferonly":
+		s.tag++
+		if err := s.g.AddProviderDeferred(NewProvider(s.u, o.Self, o.Deps, s.tag)); err != nil {
+			return "defer-error", "AddProviderDeferred failed: " + err.Error()
+		}
+		s.r.Add(o.Self, o.Deps, s.tag)
+		s.pending = true
+		s.stats["defer_pending"]++
+	case "detect":
+		err := s.g.DetectCycles()
+		if (err != nil) != s.r.Cyclic() {
+			return "detect-cycles", fmt.Sprintf("DetectCycles()=%v, reference cyclic=%v", err, s.r.Cyclic())
+		}
+		if s.pending {
+			s.stats["deferred_batch_completed"]++
+		}
+		s.pending = false
 	case "add":
+		if s.pending {
+			s.stats["add_skipped_while_pending"]++
+			return "", ""
+		}
 		if s.r.Cyclic() {
 			// immediate adds are only specified on graphs that passed the cycle check
 			s.stats["add_skipped_on_cyclic"]++
@@ -103,7 +137,11 @@ func (s *seqState) apply(o Op) (clause, msg string) {
 		if (err != nil) != s.r.Cyclic() {
 			return "detect-cycles", fmt.Sprintf("DetectCycles()=%v, reference cyclic=%v", err, s.r.Cyclic())
 		}
+		s.pending = false
 		s.stats["defer"]++
+	}
+	if s.pending {
+		return "", ""
 	}
 	if m := Compare(s.g, s.r, s.u); m != "" {
 		return "query-mismatch:" + o.Kind, m
@@ -130,6 +168,15 @@ func c19Sig(clause string, ops []Op, upto int) string {
 			feat += ":nodeps"
 		}
 	}
+	if o.Kind == "detect" {
+		// name what happened while the deferred batch was pending
+		for j := upto - 1; j >= 0 && ops[j].Kind != "detect" && ops[j].Kind != "defer" && ops[j].Kind != "clear"; j-- {
+			if ops[j].Kind == "remove" {
+				feat += ":remove-while-pending"
+				break
+			}
+		}
+	}
 	return "C19/" + clause + ":" + feat
 }
 
@@ -146,10 +193,12 @@ func smallAlphabet() []Op {
 			}
 			ops = append(ops, Op{Kind: "add", Self: self, Deps: deps})
 			ops = append(ops, Op{Kind: "defer", Self: self, Deps: deps})
+			ops = append(ops, Op{Kind: "deferonly", Self: self, Deps: deps})
 		}
 		ops = append(ops, Op{Kind: "remove", Self: self})
 	}
 	ops = append(ops, Op{Kind: "clear"})
+	ops = append(ops, Op{Kind: "detect"})
 	return ops
 }
 
@@ -178,7 +227,7 @@ func init() {
 		ID:    "C19",
 		Level: "exploration",
 		Rule: "cases are sequences of AddProvider / AddProviderDeferred+DetectCycles / RemoveProvider / Clear over a pool of node identities (types x keys x groups); " +
-			"after EVERY step every public query is compared with a map-of-lists reference digraph. Exhaustive part: all sequences of length <=3 (quick) / <=4 (thorough) over a 52-op alphabet on 3 identities; " +
+			"after EVERY step every public query is compared with a map-of-lists reference digraph. Deferred adds also occur in batches (several AddProviderDeferred, removes and clears in between, then one DetectCycles); nothing is compared while a batch is pending. Exhaustive part: all sequences of length <=3 (quick) / <=4 (thorough) over a 77-op alphabet on 3 identities (every dependency subset x add / deferred+check / deferred-only, remove, clear, the check); " +
 			"random part: seeded sequences of length 30-200 over 12 identities. A case is non-trivial when at least one step changed the reference graph; distinct = distinct op sequences.",
 		Shards: func(tier string) int { return 16 },
 		Run:    runC19,
@@ -187,7 +236,7 @@ func init() {
 			"depths are compared only on graphs the reference knows to be acyclic",
 			"exact in/out degrees are compared only when no provider lists the same dependency twice; zero/non-zero (roots, leaves) always",
 		},
-		NeedEvents: []string{"compared_states", "add", "defer", "remove", "concurrent_sort_vs_mutation_rounds"},
+		NeedEvents: []string{"compared_states", "add", "defer", "remove", "deferred_batch_completed", "remove_while_deferred_pending", "concurrent_sort_vs_mutation_rounds"},
 	})
 }
 
@@ -230,7 +279,7 @@ func runC19(c *eng.Ctx) {
 			}
 			rec([]Op{alpha[a], alpha[b]})
 			c.R.AddEnumerated(cnt, nt)
-			c.R.ExhaustiveProgress(fmt.Sprintf("all op sequences of length %d over the 52-op alphabet on 3 identities", maxLen), total, int(cnt))
+			c.R.ExhaustiveProgress(fmt.Sprintf("all op sequences of length %d over the 77-op alphabet on 3 identities", maxLen), total, int(cnt))
 			c.R.End(idx, eng.Hash("c19-block", a, b, maxLen), false)
 		}
 	}
@@ -285,6 +334,13 @@ func randomSeq(rng *rand.Rand, u []Ident, n int) []Op {
 			kind := "add"
 			if x >= 65 {
 				kind = "defer"
+			}
+			if x >= 85 {
+				kind = "deferonly"
+			}
+			if x >= 97 {
+				ops = append(ops, Op{Kind: "detect"})
+				continue
 			}
 			ops = append(ops, Op{Kind: kind, Self: self, Deps: deps})
 		}
